@@ -23,6 +23,11 @@ type shutSpec struct {
 	// SACK but no SHUTDOWN: the SHUTDOWN chunks then acknowledge B's data only partially.
 	KillBOff  []uint32
 	KillSacks int
+	// Interrupted: none of A's DATA reaches B (every copy is lost) and, InterruptAfter into
+	// A's Shutdown, B terminates the association ("abortB") or A's transport fails
+	// ("readerrA"): whatever Shutdown on A returns then, nil must still mean "delivered".
+	Interrupted    string
+	InterruptAfter time.Duration
 }
 
 func shutScenario(spec *shutSpec) *Scenario {
@@ -31,7 +36,19 @@ func shutScenario(spec *shutSpec) *Scenario {
 		Horizon: 900 * time.Second,
 		Setup: func(m *Sim) {
 			m.W.faults = spec.Faults
-			if len(spec.KillBOff) > 0 || spec.KillSacks > 0 {
+			if spec.Interrupted != "" {
+				m.W.killFn = func(p *wpkt) bool {
+					if p.dec == nil || p.from != 0 {
+						return false
+					}
+					for _, c := range p.dec.Chunks {
+						if c.Typ == wDATA || c.Typ == wIDATA {
+							return true
+						}
+					}
+					return false
+				}
+			} else if len(spec.KillBOff) > 0 || spec.KillSacks > 0 {
 				seen := map[uint32]bool{}
 				sacks := 0
 				m.W.killFn = func(p *wpkt) bool {
@@ -143,6 +160,10 @@ func shutScenario(spec *shutSpec) *Scenario {
 			case 2:
 				ts = append(ts, shut(1, 15*time.Millisecond))
 			}
+			if spec.Interrupted != "" {
+				m.Sleep(spec.InterruptAfter)
+				m.inject(spec.Interrupted)
+			}
 			if spec.LateWrite {
 				m.WaitUntil("shutdown-begun", 10*time.Second, func() bool { return m.As[0].getState() != established })
 				n, err := sa.WriteSCTP(payload(1, 99, 17), PayloadTypeWebRTCBinary)
@@ -179,7 +200,10 @@ func shutScenario(spec *shutSpec) *Scenario {
 			m.Join(rA, rB)
 			st = [2]uint32{m.As[0].getState(), m.As[1].getState()}
 			// oracles
-			if serr[0] != nil {
+			if serr[0] != nil && spec.Interrupted != "" {
+				// the association was terminated under the shutdown: an error is the honest answer
+				m.Observe("interrupted: %v", serr[0] != nil)
+			} else if serr[0] != nil {
 				m.Failf("shutdown.stall", "Shutdown on A returned %v (state A=%s B=%s)", serr[0], getAssociationStateString(st[0]), getAssociationStateString(st[1]))
 			} else {
 				cmpHistory(m, "shutdown.delivery", "B", got[1], want[1])
@@ -261,6 +285,16 @@ func propC08(j *Job) {
 						j.Explore(fmt.Sprintf("S/%s/m%d/x%d/bdata%v/late%v", mode.Name, len(sizes), crossed, bdata, late), shutScenario(spec), Budget{K: k}, nil)
 						if j.capped() {
 							return
+						}
+						if !bdata && !late && crossed == 0 && si > 0 {
+							for _, ev := range []string{"abortB", "readerrA", "closeB"} {
+								is := *spec
+								is.Interrupted, is.InterruptAfter = ev, 2*time.Second
+								j.Explore(fmt.Sprintf("S/%s/m%d/interrupted/%s", mode.Name, len(sizes), ev), shutScenario(&is), Budget{K: 0}, nil)
+								if j.capped() {
+									return
+								}
+							}
 						}
 						if bdata && !late && crossed == 0 && si < 2 {
 							// the peer's data is acknowledged by SHUTDOWN chunks only, and partially
